@@ -411,6 +411,52 @@ class EvalCase(Case):
             U, T, L, cfg['clip']), {}
 
 
+class LayerHistoryCase(Case):
+  """The constraints the real build() attaches, after the scale variable has been UPDATED: the property allows scale signs
+  to change between updates, so the kernel constraint (training-time and final) must read the live scale, not the value
+  it had at build time.  The layer's own constraint objects applied to a symbolic kernel must give what a fresh constraint
+  object built from the layer's hyperparameters and the CURRENT scale gives."""
+  contract_key = None
+  xcheck = False
+
+  def setup(self, cfg, c):
+    c.sort_mode = 'abstract'
+
+  def body(self, cfg, c):
+    from vt import kerasc
+    ly = load.mod('kronecker_factored_lattice_layer')
+    L, U, D, T = cfg['L'], cfg['units'], cfg['dims'], cfg['terms']
+    lo = 0.0 if cfg['bounds'] in ('min', 'both') else None      # concrete hyperparameters (0.0: a falsy bound)
+    hi = 2.0 if cfg['bounds'] in ('max', 'both') else None
+    monos = list(cfg['monos']) if any(cfg['monos']) else None
+    layer = ly.KroneckerFactoredLattice(lattice_sizes=L, units=U, num_terms=T, monotonicities=monos, output_min=lo, output_max=hi)
+    layer.build(tfc.TensorShape([None, D] if U == 1 else [None, U, D]))
+    K = tfc.sym(list(layer.kernel.a.shape), 'K')
+    S1 = tfc.sym(list(layer.scale.a.shape), 'S_now')
+    layer.scale.assign(S1)
+    need_k = bool(monos) or lo is not None or hi is not None
+    cl = []
+    cons = [('kernel.constraint', getattr(layer.kernel, 'constraint', None))]
+    if hasattr(layer, '_final_kernel_constraints'):
+      cons.append(('final-kernel-constraints', layer._final_kernel_constraints))
+    for nm, kc in cons:
+      if kc is None:
+        cl.append(('%s-attached-when-needed' % nm, B.const(not need_k)))
+        continue
+      out = kc(K)
+      ref = type(kc)(**dict(kc.get_config(), scale=S1))(K) if hasattr(kc, 'get_config') else None
+      cl.append(('%s-rebuilt-from-its-config' % nm, B.const(ref is not None and tuple(ref.a.shape) == tuple(out.a.shape))))
+      if ref is None or tuple(ref.a.shape) != tuple(out.a.shape):
+        continue
+      for idx in np.ndindex(*out.a.shape):
+        cl.append(('%s-follows-the-current-scale%s' % (nm, list(idx)), P.lift(out.a[idx]).eq(P.lift(ref.a[idx]))))
+      cfgk = kc.get_config()
+      cl.append(('%s-has-the-layer-hyperparameters' % nm,
+                 B.const(cfgk.get('units') == U and cfgk.get('output_min') == lo and cfgk.get('output_max') == hi and
+                         [int(load.mod('utils').canonicalize_monotonicity(m) or 0) for m in (cfgk.get('monotonicities') or [0] * D)] == list(cfg['monos']))))
+    return cl
+
+
 class LemmaCase(Case):
   """Per-term facts + bias fixed by build  =>  the function is monotone and bounded."""
   contract_key = None
@@ -510,7 +556,7 @@ def _l_scale(s, p, S):
 
 CASES = {'kpm': KpmCase(), 'kpb': KpbCase(), 'kfw': KfwCase(), 'kfs': KfsCase(),
          'constraint_call': ConstraintCallCase(), 'scale_call': ScaleCallCase(), 'eval': EvalCase(),
-         'lemma': LemmaCase()}
+         'lemma': LemmaCase(), 'layer_history': LayerHistoryCase()}
 
 
 def configs(tier, rng):
@@ -535,6 +581,9 @@ def configs(tier, rng):
           jobs.append(('kfw', cfg))
           jobs.append(('constraint_call', cfg))
         jobs.append(('kpb', dict(base, bounds=bounds)))
+    for bounds in bk:
+      for monos in itertools.product([0, 1], repeat=D):
+        jobs.append(('layer_history', dict(base, bounds=bounds, monos=list(monos))))
     for bounds in bk:
       jobs.append(('kfs', dict(base, bounds=bounds)))
       jobs.append(('scale_call', dict(base, bounds=bounds)))
